@@ -51,6 +51,9 @@ inductive Behaviour where
   | silent           -- the request is read, nothing is sent back
   | malformed        -- 48 bytes that are not a REPE header are sent back
   | appError         -- a well-formed reply with a non-zero error code
+  | badBody          -- a well-formed reply, error code 0, whose body the entry point cannot decode
+                     -- (empty or truncated JSON, not JSON, a wrong format code, not UTF-8): a reply —
+                     -- the connection is sound and stays — reported as a decode error
   | success
   deriving DecidableEq, Repr
 
@@ -93,6 +96,7 @@ def deadClientError (P : Policy) : ErrClass := .io P.deadKind
 def attempt : Cache → Behaviour → Reply × Cache
   | _, .success => (.ok, .live)
   | _, .appError => (.err .server, .live)
+  | _, .badBody => (.err .decode, .live)
   | _, .closedWhileIdle => (.ok, .dead)
   | _, .malformed => (.err .decode, .dead)
   | _, .silent => (.err (.io .timedOut), .live)
